@@ -72,3 +72,12 @@ Theorem c04_tie_directions : forall ca k,
   tp_ciphers ca k = src_cbc_ciphers_list ca (kl_enc_c k) (kl_enc k) (kl_mac_c k) (kl_mac k) /\
   tp_macs ca k = src_etm_macs_list ca (kl_enc_c k) (kl_enc k) (kl_mac_c k) (kl_mac k).
 Proof. exact tie_directions. Qed.
+(* the rule over the source's own name tests and choice of lists (T1c translation): exactly the names passing those tests in those lists carry the warning *)
+Theorem c04_src_terrapin_rule : forall ca bs k dh rn d c n e0,
+  terrapin_free d -> db_get d c n = Some e0 ->
+  (carries (p_db (post_process ca bs k dh rn d)) c n <->
+   has_marker ca k = false /\
+   ((c = "enc" /\ src_is_chacha_ciphers n = true /\ In n (src_ciphers ca k)) \/
+    (c = "enc" /\ src_is_cbc_ciphers n = true /\ In n (src_ciphers ca k) /\ exists m, In m (src_macs ca k) /\ src_is_etm_macs m = true) \/
+    (c = "mac" /\ src_is_etm_macs n = true /\ In n (src_macs ca k) /\ exists x, In x (src_ciphers ca k) /\ src_is_cbc_ciphers x = true))).
+Proof. exact src_terrapin_rule. Qed.
